@@ -244,8 +244,8 @@ theorem lineExec_expected_pre (d ax : ℕ) (env : KEnv) (vals : List ℕ) (phi :
                 (env.coefs.getD 2 #[]).getD (ix j) 0, phi.getD (ix j) 0 / env.dt⟩ : Row))) j) phi := by
   unfold lineExec
   simp only [expected, if_true, expPreStmts, List.foldl_cons, List.foldl_nil, exec_tridiagMalloc]
-  simp only [execStmt, execProc, wk, List.getD_cons_zero, List.getD_cons_succ, RArg.out, RArg.ref, RArg.bound, RArg.expr, lookRef,
-    setArr_arr, setArr_sc, setArr_phi, init_arr, init_sc, init_phi, reduceCtorEq, if_false, if_true,
+  simp only [execStmt, execProc, wk, List.getD_cons_zero, List.getD_cons_succ, RArg.out, RArg.ref, RArg.bound, lookRef,
+    setArr_arr, setArr_sc, setArr_phi, init_arr, init_phi, reduceCtorEq, if_false, if_true,
     evalExpr, evalSc, evalIx, evalVar, evalBound, List.headD_cons, Nat.sub_zero, Nat.zero_add, Nat.add_zero, hix, Nat.cast_one, div_one]
   unfold writeLine
   congr 1
